@@ -10,6 +10,11 @@ claimed = {
  "C05": ("path exploration with panic edges, deferred calls and recover modelling; argument provenance of the panic handler", "5.C05"),
  "C06": ("wait-group typestate over publisher and goroutine paths (count before spawn, Done on every exit); Shutdown select-arm typestate", "5.C06"),
  "C07": ("lock-held-at-invocation typestate over all paths incl. panic edges; necessary-condition check for publisher-side sequencing", "5.C07"),
+ "C09": ("must-pass-through typestate on PublishContext (persist call ahead of snapshot) + exhaustive path enumeration of the persist function with predicates + provenance of the record fields + lock-region check", "5.C09"),
+ "C13": ("exhaustive path enumeration of the loop-free persist function (predicate-classified path classes) + argument provenance + containment checks", "5.C13"),
+ "C15": ("value provenance (E-FLOW) from every name sink to the name functions + two-path specification of EventType and its typed helper + types.Implements table", "5.C15"),
+ "C16": ("path enumeration of register (guards dominate insertion) + lock-region atomicity + who-may-write of the graph + structural recursion check + loop termination certificate", "5.C16"),
+ "C17": ("return-value provenance of apply + dominance of err==nil over uses of upcast results + shape check of the typed wrapper", "5.C17"),
  "C08": ("context-gate and hook typestate automata over all paths of PublishContext; context provenance (E-FLOW)", "5.C08"),
 }
 names = subprocess.run(['bash','-c','cd /verif && bin/ebucheck list'],capture_output=True,text=True).stdout.split()
